@@ -31,6 +31,9 @@ pub enum Op {
     GrpcClose { conn: u8 },
     Kill { node: u8 },
     Restart,
+    /// two requests for one address back to back through one node (inside one 500 ms sync batch of the owner):
+    /// update then deregister (end_registered = false) or deregister then register again (true)
+    Flap { svc: u8, addr: u8, node: u8, weight: u8, end_registered: bool },
     Pause { ms: u16 },
 }
 
@@ -48,6 +51,7 @@ fn op_strategy(with_kill: bool) -> BoxedStrategy<Op> {
         (1, (0u8..3, 0u8..3, 6u8..12).prop_map(|(conn, svc, addr)| Op::GrpcDeregister { conn, svc, addr }).boxed()),
         (2, (0u8..3).prop_map(|conn| Op::GrpcClose { conn }).boxed()),
         (2, (100u16..1500).prop_map(|ms| Op::Pause { ms }).boxed()),
+        (3, (0u8..3, 0u8..6, 0u8..3, 2u8..5, any::<bool>()).prop_map(|(svc, addr, node, weight, end_registered)| Op::Flap { svc, addr, node, weight, end_registered }).boxed()),
     ];
     if with_kill {
         v.push((2, (0u8..3).prop_map(|node| Op::Kill { node }).boxed()));
@@ -335,10 +339,13 @@ fn run_case_inner(case: &Case, c: &mut Cluster) -> CaseReport {
                     // a client whose node is gone talks to another node
                     let nd = (0..3).map(|d| (node + d) % 3).find(|i| alive[*i].load(Ordering::SeqCst)).unwrap_or(node);
                     let (ip, port) = addr_of(addr);
-                    let _ = client
+                    let r = client
                         .put(format!("{}/nacos/v1/ns/instance/beat", bases[nd]))
                         .query(&[("serviceName", SVCS[svc].to_string()), ("ip", ip), ("port", port.to_string()), ("ephemeral", "true".to_string()), ("groupName", "DEFAULT_GROUP".to_string())])
                         .send();
+                    if std::env::var("RNV_DEBUG").is_ok() {
+                        eprintln!("beat svc{} addr{} via node{} -> {:?}", svc, addr, nd + 1, r.map(|x| (x.status().as_u16(), x.text().unwrap_or_default().chars().take(80).collect::<String>())).map_err(|e| e.to_string()));
+                    }
                 }
                 for _ in 0..20 {
                     if hb_stop.load(Ordering::SeqCst) {
@@ -409,6 +416,61 @@ fn run_case_inner(case: &Case, c: &mut Cluster) -> CaseReport {
                         model.remove(&(s, *addr));
                     }
                     Ok(false) => {}
+                    Err(e) => {
+                        err = Some(format!("op #{} {:?}: {}", opi, op, e));
+                        break;
+                    }
+                }
+            }
+            Op::Flap { svc, addr, node, weight, end_registered } => {
+                let nd = *node as usize % 3;
+                if down == Some(nd) {
+                    continue;
+                }
+                let s = *svc as usize % 3;
+                // only for addresses that are not connection-owned (see HttpDeregister)
+                if matches!(model.get(&(s, *addr)), Some((Owner::Grpc(_), _))) {
+                    continue;
+                }
+                let (ip, port) = addr_of(*addr);
+                labels.insert("two_requests_for_one_address_back_to_back".into());
+                let r = if *end_registered {
+                    hb_set.lock().unwrap().remove(&(s, *addr));
+                    http_deregister(c, nd, SVCS[s], &ip, port).and_then(|a| http_register(c, nd, SVCS[s], &ip, port, *weight).map(|b| (a, b)))
+                } else {
+                    http_register(c, nd, SVCS[s], &ip, port, *weight).and_then(|a| {
+                        hb_set.lock().unwrap().remove(&(s, *addr));
+                        http_deregister(c, nd, SVCS[s], &ip, port).map(|b| (a, b))
+                    })
+                };
+                if std::env::var("RNV_DEBUG").is_ok() {
+                    eprintln!("flap {:?} -> {:?}", op, r);
+                }
+                match r {
+                    // each request counts on its own, like the single operations (a refused one changes nothing)
+                    Ok((first_ok, second_ok)) => {
+                        let (reg_ok, dereg_ok) = if *end_registered { (second_ok, first_ok) } else { (first_ok, second_ok) };
+                        if *end_registered {
+                            if dereg_ok {
+                                model.remove(&(s, *addr));
+                            }
+                            if reg_ok {
+                                model.insert((s, *addr), (Owner::Http, *weight));
+                                hb_set.lock().unwrap().insert((s, *addr), nd);
+                                writers.entry((s, *addr)).or_default().insert(nd);
+                            }
+                        } else {
+                            if reg_ok {
+                                model.insert((s, *addr), (Owner::Http, *weight));
+                                writers.entry((s, *addr)).or_default().insert(nd);
+                            }
+                            if dereg_ok {
+                                model.remove(&(s, *addr));
+                            } else if model.contains_key(&(s, *addr)) {
+                                hb_set.lock().unwrap().insert((s, *addr), nd);
+                            }
+                        }
+                    }
                     Err(e) => {
                         err = Some(format!("op #{} {:?}: {}", opi, op, e));
                         break;
@@ -503,6 +565,17 @@ fn run_case_inner(case: &Case, c: &mut Cluster) -> CaseReport {
                 }
             }
             Op::Pause { ms } => std::thread::sleep(Duration::from_millis(*ms as u64)),
+        }
+        // heartbeats follow the model: every HTTP-owned registration the model holds keeps beating (through the
+        // node it last used, or any node), nothing else does
+        {
+            let mut hb = hb_set.lock().unwrap();
+            hb.retain(|k, _| matches!(model.get(k), Some((Owner::Http, _))));
+            for (k, (o, _)) in model.iter() {
+                if *o == Owner::Http && !hb.contains_key(k) {
+                    hb.insert(*k, 0);
+                }
+            }
         }
     }
     // ---- wait for convergence: all live nodes return exactly the model, identically
@@ -616,7 +689,7 @@ pub fn main(ctx: &Ctx) -> i32 {
     let work = work_dir(ctx);
     let fin = || Finish {
         level: "exploration",
-        rule: "schedules (10..36 ops) on real 3-node clusters: HTTP register (explicit weights 2..4; weight 1 means 'not given' to the handler) / deregister addressed to generated nodes over 3 services x 6 addresses, gRPC register / deregister of 6 further addresses through up to three held bi-stream connections attached to generated nodes, connection close, pauses, and (second class) kill -9 / restart of one node; HTTP heartbeats are kept going every 2 s for HTTP instances the model holds. Oracle: within 100 s after the last op (1) all live nodes return the same set (ip, port, healthy, enabled, weight) for every service and (2) that set is exactly the model's surviving registrations, healthy and enabled - instances of connections attached to a killed node, of closed connections and deregistered ones are gone, everything else present; weights are compared with the model only in schedules without a kill (after a kill a heartbeat may re-create an instance on the new responsible node and the server takes no weight from a beat). Saved replays are re-run first. non-trivial = one address written through two different nodes, or a node killed while holding gRPC registrations; distinct = hash of the schedule".into(),
+        rule: "schedules (10..36 ops) on real 3-node clusters: HTTP register (explicit weights 2..4; weight 1 means 'not given' to the handler) / deregister addressed to generated nodes over 3 services x 6 addresses, gRPC register / deregister of 6 further addresses through up to three held bi-stream connections attached to generated nodes, connection close, pauses, back-to-back update+deregister / deregister+register of one address (inside one sync batch), and (second class) kill -9 / restart of one node; HTTP heartbeats are kept going every 2 s for HTTP instances the model holds. Oracle: within 100 s after the last op (1) all live nodes return the same set (ip, port, healthy, enabled, weight) for every service and (2) that set is exactly the model's surviving registrations, healthy and enabled - instances of connections attached to a killed node, of closed connections and deregistered ones are gone, everything else present; weights are compared with the model only in schedules without a kill (after a kill a heartbeat may re-create an instance on the new responsible node and the server takes no weight from a beat). Saved replays are re-run first. non-trivial = one address written through two different nodes, or a node killed while holding gRPC registrations; distinct = hash of the schedule".into(),
         assumptions: vec![
             "message schedules between the nodes are sampled by real execution, not controlled ('delayed batch overtaking a remove' is reachable only by luck)".into(),
             "HTTP deregistration is only issued for addresses that are not connection-owned; gRPC addresses are written by one connection at a time (keeps the reference model exact)".into(),
